@@ -98,6 +98,7 @@ type Term struct {
 }
 
 type TB struct {
+	OldRefs map[*Term]bool // reference terms assumed to be allocated before the function under verification
 	tab   map[string]*Term
 	next  int
 	fresh map[string]int
@@ -120,7 +121,7 @@ type DTField struct {
 }
 
 func NewTB() *TB {
-	tb := &TB{tab: map[string]*Term{}, fresh: map[string]int{}, dtDecl: map[string]*DTDecl{}, ufDecl: map[string]string{}}
+	tb := &TB{OldRefs: map[*Term]bool{}, tab: map[string]*Term{}, fresh: map[string]int{}, dtDecl: map[string]*DTDecl{}, ufDecl: map[string]string{}}
 	tb.DeclareDT(&DTDecl{Name: "Slice", Ctor: "mkSlice", Fields: []DTField{{"s.base", SRef}, {"s.off", SBV64}, {"s.len", SBV64}, {"s.cap", SBV64}}})
 	tb.DeclareDT(&DTDecl{Name: "Str", Ctor: "mkStr", Fields: []DTField{{"t.base", SRef}, {"t.off", SBV64}, {"t.len", SBV64}}})
 	tb.DeclareDT(&DTDecl{Name: "Iface", Ctor: "mkIface", Fields: []DTField{{"i.tag", SInt}, {"i.ref", SRef}}})
@@ -523,6 +524,26 @@ func (tb *TB) BVBin(op string, a, b *Term) *Term {
 			return tb.BVBig(r, w)
 		}
 	}
+	// division / remainder by a power of two: avoid divider circuits (exact rewrites)
+	if b.Op == "bvlit" && b.Val.Sign() > 0 && new(big.Int).And(b.Val, new(big.Int).Sub(b.Val, big.NewInt(1))).Sign() == 0 && b.Val.BitLen() < w {
+		c := int64(b.Val.BitLen() - 1)
+		m := tb.BVBig(new(big.Int).Sub(b.Val, big.NewInt(1)), w)
+		sh := tb.BV(c, w)
+		switch op {
+		case "bvurem":
+			return tb.BVBin("bvand", a, m)
+		case "bvudiv":
+			return tb.BVBin("bvlshr", a, sh)
+		case "bvsrem":
+			neg := tb.BVCmp("bvslt", a, tb.BV(0, w))
+			na := tb.BVNeg(a)
+			return tb.Ite(neg, tb.BVNeg(tb.BVBin("bvand", na, m)), tb.BVBin("bvand", a, m))
+		case "bvsdiv":
+			neg := tb.BVCmp("bvslt", a, tb.BV(0, w))
+			na := tb.BVNeg(a)
+			return tb.Ite(neg, tb.BVNeg(tb.BVBin("bvlshr", na, sh)), tb.BVBin("bvlshr", a, sh))
+		}
+	}
 	isZero := func(t *Term) bool { return t.Op == "bvlit" && t.Val.Sign() == 0 }
 	isOnes := func(t *Term) bool { return t.Op == "bvlit" && t.Val.Cmp(mask(w)) == 0 }
 	switch op {
@@ -539,6 +560,10 @@ func (tb *TB) BVBin(op string, a, b *Term) *Term {
 		}
 		if op == "bvadd" && a.Op == "bvlit" && b.Op != "bvlit" {
 			return tb.BVBin(op, b, a)
+		}
+		if op == "bvadd" && b.Op == "bvadd" && len(b.Args) == 2 && b.Args[1].Op == "bvlit" && a.Op != "bvlit" {
+			// a + (x + c) => (a + x) + c
+			return tb.BVBin("bvadd", tb.BVBin("bvadd", a, b.Args[0]), b.Args[1])
 		}
 	case "bvsub":
 		if isZero(b) {
@@ -714,6 +739,9 @@ func (tb *TB) IntBin(op string, a, b *Term) *Term {
 			return tb.mk("intlit", SInt, "", r.Sub(a.Val, b.Val))
 		}
 	}
+	if op == "+" && b.Op == "intlit" && a.Op == "+" && a.Args[1].Op == "intlit" {
+		return tb.IntBin("+", a.Args[0], tb.mk("intlit", SInt, "", new(big.Int).Add(a.Args[1].Val, b.Val)))
+	}
 	return tb.mk(op, SInt, "", nil, a, b)
 }
 
@@ -775,6 +803,12 @@ func (tb *TB) syntDistinct(a, b *Term) bool {
 			if tb.syntDistinct(a.Args[i], b.Args[i]) {
 				return true
 			}
+		}
+	}
+	// a reference allocated during the run vs. one known to predate the run
+	if a.Sort == SRef {
+		if (tb.isNewRef(a) && tb.OldRefs[b]) || (tb.isNewRef(b) && tb.OldRefs[a]) {
+			return true
 		}
 	}
 	// x + c1 vs x + c2, x vs x + c
@@ -1223,4 +1257,28 @@ func (tb *TB) Script(asserts []*Term, getvals []*Term, cvc5 bool) string {
 		sb.WriteString("(get-value (" + strings.Join(gv, " ") + "))\n")
 	}
 	return sb.String()
+}
+
+
+// isNewRef: obj(clock0 + n) or a sub-object of one.
+func (tb *TB) isNewRef(t *Term) bool {
+	for t.Op == "ctor" && t.Name == "sub" {
+		t = t.Args[0]
+	}
+	if t.Op != "ctor" || t.Name != "obj" {
+		return false
+	}
+	id := t.Args[0]
+	if id.Op == "const" && id.Name == "clock0" {
+		return true
+	}
+	if id.Op == "+" && id.Args[0].Op == "const" && id.Args[0].Name == "clock0" && id.Args[1].Op == "intlit" && id.Args[1].Val.Sign() >= 0 {
+		return true
+	}
+	if id.Op == "+" && id.Args[0].Op == "+" {
+		// (clock0 + a) + b
+		x := id.Args[0]
+		return x.Args[0].Op == "const" && x.Args[0].Name == "clock0" && x.Args[1].Op == "intlit" && id.Args[1].Op == "intlit"
+	}
+	return false
 }
